@@ -65,6 +65,20 @@ fn enumerate() {
         let t = std::panic::catch_unwind(|| match ast::Suite::parse(&src, "<c13>") {
             Err(_) => "noparse".to_string(),
             Ok(suite) => {
+                // the byte range of every Name node spells that name (the ranges are what the locators convert)
+                let raw = format!("{:?}", suite);
+                for part in raw.split("ExprName { range: ").skip(1) {
+                    let mut it = part.splitn(2, ", id: Identifier(\"");
+                    let (range, rest) = (it.next().unwrap_or(""), it.next().unwrap_or(""));
+                    let name = rest.split('"').next().unwrap_or("");
+                    let mut ab = range.split("..");
+                    let (a, b) = (ab.next().and_then(|x| x.parse::<usize>().ok()), ab.next().and_then(|x| x.parse::<usize>().ok()));
+                    if let (Some(a), Some(b)) = (a, b) {
+                        if src.get(a..b) != Some(name) {
+                            return format!("NAMERANGE the Name node {:?} has the range {}..{}, which covers {:?}", name, a, b, src.get(a..b));
+                        }
+                    }
+                }
                 let a = LinearLocator::new(&src).fold(suite.clone()).unwrap();
                 let b = RandomLocator::new(&src).fold(suite).unwrap();
                 // SourceRange has no PartialEq: the Debug rendering shows every field of every node
